@@ -387,8 +387,11 @@ PROPS = {
         "assumptions": [],
     },
     "C12": {
-        "modules": ["Vibrato.Props.C01"],
-        "theorems": ["Vibrato.gaps_start_with_space"],
+        "modules": ["Vibrato.Props.C12", "Vibrato.Props.C01"],
+        "theorems": ["Vibrato.respace_invariant", "Vibrato.spaces_only", "Vibrato.spaces_only_any_dict",
+                     "Vibrato.ignore_space_requires_SPACE", "Vibrato.ignore_space_sets_single_bit",
+                     "Vibrato.skipped_not_tokenized", "Vibrato.no_node_ends_in_run", "Vibrato.skip_is_space_run",
+                     "Vibrato.cands_local", "Vibrato.spacePreB_sound", "Vibrato.gaps_start_with_space"],
         "streams": tok_streams("c12", 400, 12000, tok2_classifier("C12", respaced_family)),
         "rule": "dictionaries meeting the precondition (SPACE characters belong to SPACE alone, no surface contains one); each case "
                 "is a family: the same segments re-spaced 3-6 ways (run lengths 1-3, two different SPACE characters, optional leading/"
